@@ -521,6 +521,17 @@ class Aff:
                 raise AffError("too many indices")
             d = base[k]
             k += 1
+            if iu.op in ("list", "tuple") and iu.args and all(
+                    tm.is_const(self.unname(z)) and
+                    type(tm.const_val(self.unname(z))) is int
+                    for z in iu.args):
+                # x[:, [0, 2]]: the listed positions of this dimension
+                if len(d) != 1 or d[0] == N:
+                    raise AffError("index list on a composite dimension")
+                take = [tm.const_val(self.unname(z)) for z in iu.args]
+                take = [v + d[0] if v < 0 else v for v in take]
+                out.append(("take", (len(take),), take))
+                continue
             if iu.op == "slice":
                 lo, hi, st = (None if z is tm.NONE else self._int(z)
                               for z in iu.args)
@@ -607,6 +618,9 @@ class Aff:
                     next(it)
                 elif kind == "all":
                     full.append(next(it))
+                elif kind == "take":
+                    dg = next(it)
+                    full.append((off[dg[0]],))
                 else:
                     dg = next(it)
                     full.append((dg[0] + off,))
